@@ -611,11 +611,16 @@ func checkC04(c *Ctx) {
 			}
 			var unres []string
 			var ierr error
+			asked := append([]string{}, req...)
 			if pv, st := guard(func() { unres, ierr = cache.InjectDevices(spec, req...) }); pv != nil {
 				cs.Violation("panic", nil, fmt.Sprintf("InjectDevices panics: %v", pv), map[string]any{"w": wit(), "stack": st})
 				return
 			}
 			c.Count("failing_requests", 1)
+			if !reflect.DeepEqual(req, asked) {
+				cs.Violation("request-modified", nil, fmt.Sprintf("a refused InjectDevices changed the caller's list of device names from %q to %q", asked, req), wit())
+				return
+			}
 			mixed := strings.Contains(pattern, "r")
 			if mixed {
 				c.Count("mixed_requests", 1)
